@@ -133,6 +133,23 @@ if st == "exc":
     rep.fail("set::constructor::raised", f"Company(members={{p1, p2}}): {type(co).__name__}: {co}", {"ops": ["constructor"]})
 elif {x.name for x in co.members} != {"p1", "p2"} or not all(co in p.member_of for p in (P[1], P[2])):
     rep.fail("set::constructor::inference", f"Company(members={{p1, p2}}): field {sorted(x.name for x in co.members)}, inverse fields missing", {"ops": ["constructor"]})
+# ---- a container taken from another individual's managed field and handed to a constructor / assigned
+C, P = fresh()
+P[0].member_of.append(C[1])
+P[0].member_of.append(C[2])
+st, q = guarded(lambda: Person(name="copy", member_of=P[0].member_of))
+rep.case(("list", "handed-over-container"))
+if st == "exc":
+    rep.fail("list::handed-over-container::raised", f"Person(member_of=p0.member_of): {type(q).__name__}: {q}", {"ops": ["handed-over"]})
+else:
+    rels = {r for r in relations() if r[1] == "copy" or r[4] == "copy"}
+    if [x.name for x in q.member_of] != ["c1", "c2"] or not all(q in c.members for c in (C[1], C[2])) or len([r for r in rels if r[1] == "copy"]) < 2:
+        rep.fail("list::handed-over-container::relations", f"Person('copy', member_of=p0.member_of): field {[x.name for x in q.member_of]}, relations of the new person {sorted(rels)}, "
+                 f"inverse fields {[[m.name for m in c.members] for c in (C[1], C[2])]}", {"ops": ["handed-over"]})
+    else:
+        q.member_of.append(C[3])
+        if q not in C[3].members or P[0] in C[3].members:
+            rep.fail("list::handed-over-container::later-write", f"copy.member_of.append(c3): c3.members = {[m.name for m in C[3].members]}", {"ops": ["handed-over", "append"]})
 # ---- elements / owners that are falsy (their class defines __len__): every write is recorded all the same
 from dataclasses import dataclass as _dc, field as _field
 from typing_extensions import List as _List
